@@ -209,7 +209,8 @@ func newSliceOrArrayAsListIterator(ctx *Context, sliceType reflect.Type) Iterato
 			context.NotifyNil()
 			return
 		}
-		if context.TryAddLocalReference(v) {
+		// An array is a value: only a slice can be shared or be part of a cycle.
+		if v.Kind() == reflect.Slice && context.TryAddLocalReference(v) {
 			return
 		}
 
